@@ -351,8 +351,10 @@ func genPromQLHistory(r *rand.Rand, quick bool) *plan.Plan {
 	step := uint32([]int{10, 15, 60}[r.IntN(3)])
 	t0 := uint32(simEpochMs/1000) + 600
 	t0 -= t0 % step
-	hosts := []string{"a", "b", "c", "web-1", "web-2"}
-	dcs := []string{"x", "y", "eu.west"}
+	// values that contain one another ("a" / "ab", "web-2" / "xweb-2", "x" / "xx"): an alternation a|web-2 must
+	// match whole values only
+	hosts := []string{"a", "b", "c", "web-1", "ab", "xweb-2", "web-2"}
+	dcs := []string{"x", "y", "xx", "eu.west"}
 	envs := []string{"prod", "dev"}
 	metrics := []string{"cpu", "mem"}
 	type ser struct {
@@ -413,7 +415,7 @@ func genPromQLHistory(r *rand.Rand, quick bool) *plan.Plan {
 					op := []string{"=", "!=", "=~", "!~"}[r.IntN(4)]
 					v := pool[r.IntN(len(pool))]
 					if op == "=~" || op == "!~" {
-						v = []string{pool[0] + "|" + pool[len(pool)-1], "web-.*", ".+", "[ab]", v}[r.IntN(5)]
+						v = []string{pool[0] + "|" + pool[len(pool)-1], pool[0] + "|" + pool[1] + "|" + pool[len(pool)-1], "web-.*", ".+", "[ab]", v}[r.IntN(6)]
 					}
 					q.Matchers = append(q.Matchers, Matcher{L: l, Op: op, V: v})
 				}
